@@ -259,9 +259,7 @@ func init() {
 		}
 		switch c := args[0].(type) {
 		case bool:
-			st.ex.mu.Lock()
-			st.ex.res.AssertsConc++
-			st.ex.mu.Unlock()
+			st.w.assertsConc++
 			if !c && !st.replaying() {
 				st.reportAssert(label, site, true)
 				panic(engineAbort{"assert-failed", label})
@@ -272,9 +270,7 @@ func init() {
 		case symBool:
 			t := st.nameBool(c.t)
 			if !st.replaying() {
-				st.ex.mu.Lock()
-				st.ex.res.AssertsChk++
-				st.ex.mu.Unlock()
+				st.w.assertsChk++
 				st.sol.send("(push)")
 				st.sol.send("(assert " + tNot(t) + ")")
 				r := st.sol.check()
